@@ -76,7 +76,7 @@ Model(sh, ss, hk) ==
        N   == Len(T)
        ids == [i \in 1..N |-> i]
        kids == [el \in 1..N |-> SelectSeq(ids, LAMBDA e : T[e].parent = el)]
-       prog == [el \in 1..N |-> [kind |-> T[el].kind, parent |-> T[el].parent, children |-> kids[el]]]
+       prog == [el \in 1..N |-> [kind |-> T[el].kind, parent |-> T[el].parent, children |-> kids[el], tags |-> <<>>]]
        scs == SelectSeq(ids, LAMBDA e : T[e].kind = "scenario")
        nth(el) == CHOOSE j \in DOMAIN scs : scs[j] = el
        feats == SelectSeq(ids, LAMBDA e : T[e].kind = "feature")
@@ -121,6 +121,16 @@ RepairedFile(show) == FileAfterRepaired(m, EngineCalls(m, Announced(show)), Stal
 ClausesOf(file) == FileClauses(m, FALSE, file) \cup LoopClauses(m, file, FeedBack(m, file.lines))
 \* (S) composed with (P): the code's automaton satisfies every clause, except the named defect family
 ClausesHold == ph = "case" => \A show \in Shows : ClausesOf(CodeFile(show)) \subseteq KnownFamilies
+\* the same with @setup / @teardown as OWN tag of one scenario (or of all): the code model leaves them to run, the loop
+\* clause accepts that and nothing else
+Tagged(S) == [m EXCEPT !.prog = [el \in DOMAIN m.prog |-> IF el \in S THEN [m.prog[el] EXCEPT !.tags = <<"setup">>] ELSE m.prog[el]]]
+ExemptHolds == (ph = "case" /\ hk = 0) =>
+   LET file == CodeFile(TRUE) IN
+   file.exists => \A S \in {{s} : s \in Scens(m)} \cup {Scens(m)} :
+       LET mt == Tagged(S)
+           fb == FeedBack(mt, file.lines) IN
+       /\ LoopClauses(mt, file, fb) = {}
+       /\ fb.sel = Listed(mt, file) \cup {s \in S : \E i \in DOMAIN file.lines : file.lines[i].f = m.fidx[s]}
 \* the clauses can be met: with the repaired eof() nothing at all fires (so (P) asks nothing impossible)
 RepairedHolds == ph = "case" => \A show \in Shows : ClausesOf(RepairedFile(show)) = {}
 \* the exception is as narrow as the defect: whenever it is used, some unsuccessful scenario is error-class or sits in a
